@@ -210,7 +210,17 @@ def run_case(ctx, k, rng):
                 val = gen_range(rng, P.pixel_size, "b" if op == "birth_range" else "p")
                 ops.append({"op": op, "value": val})
                 nontriv = nontriv or inexact(val[1] - val[0], P.pixel_size)
-                setattr(P, op, val)
+                r_ = rng.random()
+                if r_ < 0.3:
+                    # the range arrives in a mutable container (a list, an ndarray row of a limits table) which the caller goes on
+                    # using: the imager must have taken the values, not the container
+                    box = list(val) if r_ < 0.15 else np.array(val, float)
+                    setattr(P, op, box)
+                    box[0] = box[0] - 7.0 * P.pixel_size; box[1] = box[1] + 3.0 * P.pixel_size
+                    ctx.note("ranges given as mutable containers")
+                    ops[-1]["container"] = type(box).__name__
+                else:
+                    setattr(P, op, val)
                 asked = {op: val}
             elif op == "pixel_size":
                 ext = max(P.width, P.height)
